@@ -17,12 +17,13 @@ import (
 	"strings"
 	"sync"
 	"testing"
-	"time"
 	"testing/synctest"
+	"time"
 
 	"github.com/opencontainers/go-digest"
 	ocispec "github.com/opencontainers/image-spec/specs-go/v1"
 	"oras.land/oras-go/v2/registry/remote"
+	"oras.land/oras-go/v2/verifhook"
 	"verif/harness/regfake"
 	"verif/harness/vh"
 )
@@ -38,18 +39,19 @@ type Op struct {
 }
 
 type Scenario struct {
-	ID       int   `json:"id"`
-	Subjects int   `json:"subjects"` // number of subjects (1 or 2)
-	Pre      []int `json:"pre"`      // referrers that exist before the round (pushed sequentially)
-	Dirty    bool  `json:"dirty"`    // the pre-existing index holds a duplicate and an empty entry
-	Ops      []Op  `json:"ops"`      // concurrent operations, each on its own referrer
-	FailDel  bool  `json:"faildel"`  // the first DELETE of an index manifest fails with 500
-	SkipGC   bool  `json:"skipgc"`   // Repository.SkipReferrersGC
-	Gated    bool  `json:"gated"`    // schedule exchanges at the gate (else real parallelism)
-	Prefix   []int `json:"prefix"`
-	Seed     int64 `json:"seed"`
-	Choices  []int `json:"choices,omitempty"`
-	NRef     int   `json:"nref"`
+	ID       int    `json:"id"`
+	Subjects int    `json:"subjects"` // number of subjects (1 or 2)
+	Pre      []int  `json:"pre"`      // referrers that exist before the round (pushed sequentially)
+	Dirty    bool   `json:"dirty"`    // the pre-existing index holds a duplicate and an empty entry
+	Ops      []Op   `json:"ops"`      // concurrent operations, each on its own referrer
+	FailDel  bool   `json:"faildel"`  // the first DELETE of an index manifest fails with 500
+	FailIdx  string `json:"failidx"`  // "put" / "get": the first PUT / GET of a referrers tag fails with 500
+	SkipGC   bool   `json:"skipgc"`   // Repository.SkipReferrersGC
+	Gated    bool   `json:"gated"`    // schedule exchanges at the gate (else real parallelism)
+	Prefix   []int  `json:"prefix"`
+	Seed     int64  `json:"seed"`
+	Choices  []int  `json:"choices,omitempty"`
+	NRef     int    `json:"nref"`
 }
 
 type universe struct {
@@ -142,18 +144,33 @@ func runScenario(t *testing.T, sc *Scenario, tr *vh.Tracer) (hang bool) {
 		for r := 1; r <= sc.NRef; r++ {
 			refs = append(refs, []any{r, u.subjOf[r], u.art[r], annSig(u.ann[r])})
 		}
-		tr.Emit(map[string]any{"e": "init", "subjects": sc.Subjects, "refs": refs, "pre": vh.Ints(sc.Pre), "dirty": sc.Dirty, "faildel": sc.FailDel,
+		tr.Emit(map[string]any{"e": "init", "subjects": sc.Subjects, "refs": refs, "pre": vh.Ints(sc.Pre), "dirty": sc.Dirty, "faildel": sc.FailDel, "failidx": sc.FailIdx,
 			"skipgc": sc.SkipGC, "nops": len(sc.Ops)})
 		s := &vh.Sched{Off: !sc.Gated}
 		failed := false
 		var fmu sync.Mutex
 		reg.Gate = func(method, route, ref string) { s.Gate(method+" "+route, 0) }
+		// the Merge protocol's own steps (assign / commit / complete) are scheduling points too; none is reached
+		// with a mutex held
+		verifhook.Set(func(name string) {
+			if strings.HasPrefix(name, "merge.") {
+				s.Gate(name, 0)
+			}
+		})
+		defer verifhook.Set(nil)
 		reg.Fail = func(method, route, ref string) bool {
-			if !sc.FailDel || method != http.MethodDelete || route != "manifest" {
+			if route != "manifest" {
 				return false
 			}
-			if _, isRef := u.id[ref]; isRef {
-				return false // only the deletion of an index manifest fails
+			switch {
+			case sc.FailDel && method == http.MethodDelete:
+				if _, isRef := u.id[ref]; isRef {
+					return false // only the deletion of an index manifest fails
+				}
+			case sc.FailIdx == "put" && method == http.MethodPut && strings.HasPrefix(ref, "sha256-"):
+			case sc.FailIdx == "get" && method == http.MethodGet && strings.HasPrefix(ref, "sha256-"):
+			default:
+				return false
 			}
 			fmu.Lock()
 			defer fmu.Unlock()
@@ -216,6 +233,7 @@ func runScenario(t *testing.T, sc *Scenario, tr *vh.Tracer) (hang bool) {
 			}
 		}
 		reg.Gate, reg.Fail = nil, nil
+		verifhook.Set(nil)
 		// quiescent observation through a fresh Repository, and the registry's own content
 		obs := newRepo(reg, false)
 		listed := [][]any{}
@@ -302,6 +320,9 @@ func genScenario(rng *rand.Rand, gated bool) Scenario {
 	}
 	sc.Dirty = npre > 0 && rng.Intn(4) == 0
 	sc.FailDel = npre > 0 && !sc.SkipGC && rng.Intn(5) == 0
+	if !sc.FailDel && rng.Intn(5) == 0 {
+		sc.FailIdx = []string{"put", "get"}[rng.Intn(2)]
+	}
 	return sc
 }
 
